@@ -713,7 +713,7 @@ def perturb(step, state, rng):
 
 
 IMPORT_ENCODER = None     # the Recorder of the run (stream `import`)
-METHOD_MODELLED = {"cut", "forall_elim", "apply_fact", "new_var", "cases"}
+METHOD_MODELLED = {"cut", "forall_elim", "apply_fact", "new_var", "cases", "introduction"}
 SEARCH_HOOK = None        # C14 logs the searches the step generator makes (replay of history-dependent failures)
 CURRENT_RUNNER = None
 
@@ -805,6 +805,7 @@ class Runner:
                 and len(self.recorder.method_records) < self.recorder.limit:
             try:
                 mrec = (self.recorder.state(target), len(self.recorder.records))
+                self.recorder.intro_capture = [] if step.get("method_name") == "introduction" else None
             except Exception:  # noqa
                 mrec = None
         if on_copy:
@@ -1363,6 +1364,8 @@ class Recorder:
             res = orig_export(pt, *a, **kw)
             try:
                 subproof = kw["subproof"] if "subproof" in kw else (a[2] if len(a) > 2 else True)
+                if subproof and getattr(rec, "intro_capture", None) is not None and not rec.intro_capture:
+                    rec.intro_capture.append([rec.item(it) for it in res.items])
                 if rec.export_capture is not None and not subproof and not rec.export_capture:
                     from logic import logic
                     lines = []
@@ -1401,6 +1404,13 @@ class Recorder:
         forward steps = add_line_before + set_line; cases = apply_tactic with the fixed shape."""
         gid = [int(x) for x in str(step["goal_id"]).split(".")]
         after = self.state(target)
+        if name == "introduction":
+            cap, self.intro_capture = getattr(self, "intro_capture", None), None
+            if not cap:
+                self.skipped += 1
+                return
+            self.method_records.append(("method:introduction", ["intro", before, gid, cap[0]], ["ok", after]))
+            return
         if name == "cases":
             new = [r for r in self.records[nrec:] if r[0] == "apply_tactic"]
             if len(new) != 1:
